@@ -142,6 +142,9 @@ Qed.
 Lemma In_memN c l : In c l -> memN c l = true.
 Proof. intros I. unfold memN. apply existsb_exists. exists c. split; [exact I|apply N.eqb_refl]. Qed.
 
+Lemma qc_invalidate st s : QC st -> QC (invalidate_converters st s).
+Proof. intros Q. apply (qc_cm st); [exact Q|apply cm_refl|intros c id; apply J_invalidate]. Qed.
+
 Lemma J_start_converter st c id : J st c id -> J (start_converter st) c id.
 Proof.
   intros HJ. unfold start_converter. destruct (jconv st) eqn:JC; [exact HJ|].
@@ -424,14 +427,17 @@ Proof.
     + simpl. destruct (jmerge st) as [[off snap [merged|]]|]; try exact Q.
       apply qc_start_merge. apply (qc_cm st); [exact Q|apply cm_refl|intros c id; apply J_frame; reflexivity].
   - (* AViewOpen *) simpl. apply (qc_cm st); [exact Q|apply cm_refl|intros c id; apply J_frame; reflexivity].
-  - (* AViewData *) simpl. destruct (find _ (views st)) as [[v0 sv]|]; [|exact Q]. destruct (cache st c i) eqn:CC; [exact Q|].
-    destruct (negb (i <? next st) || negb (memN c (convs st))); [exact Q|]. simpl.
+  - (* AViewData *) cbn [step]. destruct (find _ (views st)) as [[v0 sv]|]; [|exact Q]. destruct (cache st c i) eqn:CC; [exact Q|].
+    destruct (negb (i <? next st) || negb (memN c (convs st))); [exact Q|]. cbn [kf_viewstore repaired orb].
     destruct (sv i =? ver st i).
     + apply (qc_cm st); [exact Q|apply cm_refl|]. intros c' id. apply J_mono; [|intros H; exact H|reflexivity].
       intros vv E. simpl. destruct ((c' =? c) && (id =? i)); [discriminate|congruence].
-    + apply qc_start_converter. apply (qc_cm st); [exact Q|apply cm_refl|]. intros c' id. apply J_mono; [| |reflexivity].
+    + apply qc_start_converter.
+      match goal with |- QC (set_toconv ?s2 _) => assert (QC s2) as Q2 by (apply (qc_invalidate st (add1 i 0)); exact Q);
+        remember s2 as st2 end.
+      apply (qc_cm st2); [exact Q2|apply cm_refl|]. intros c' id. apply J_mono; [| |reflexivity].
       * intros vv E. simpl. congruence.
-      * intros H. simpl. unfold fupd. destruct (c' =? c) eqn:EC; [apply N.eqb_eq in EC; subst; rewrite mem_add1, H; reflexivity|exact H].
+      * intros H. simpl. unfold fupd. destruct (c' =? c) eqn:EC; [apply N.eqb_eq in EC; subst c'; rewrite mem_add1, H; reflexivity|exact H].
   - (* AViewClose *) simpl. apply (qc_cm st); [exact Q|apply cm_refl|intros c id; apply J_frame; reflexivity].
 Qed.
 
@@ -565,12 +571,16 @@ Proof.
     + simpl. destruct (jmerge st) as [[off snap [merged|]]|]; try exact QB.
       apply qb_start_merge. apply (qb_frame st); try reflexivity; exact QB.
   - simpl. apply (qb_frame st); try reflexivity; exact QB.
-  - simpl. destruct (find _ (views st)) as [[v0 sv]|]; [|exact QB]. destruct (cache st c i); [exact QB|].
-    destruct (N.ltb_spec i (next st)) as [LT|]; simpl; [|exact QB].
-    destruct (memN c (convs st)); simpl; [|exact QB].
+  - cbn [step]. destruct (find _ (views st)) as [[v0 sv]|]; [|exact QB]. destruct (cache st c i); [exact QB|].
+    destruct (N.ltb_spec i (next st)) as [LT|]; cbn [negb orb]; [|exact QB].
+    destruct (memN c (convs st)); cbn [negb orb kf_viewstore repaired]; [|exact QB].
     destruct (sv i =? ver st i).
     + apply (qb_frame st); try reflexivity; exact QB.
-    + apply qb_start_converter. destruct QB as (A & B). split; [|exact B]. intros c'. simpl. unfold fupd.
+    + apply qb_start_converter.
+      assert (Qb (invalidate_converters st (add1 i 0))) as QB2 by (apply qb_invalidate; [exact CBD|exact QB]).
+      remember (invalidate_converters st (add1 i 0)) as st2 eqn:E2.
+      assert (next st2 = next st) as NX by (subst st2; reflexivity).
+      destruct QB2 as (A & B). split; [|exact B]. intros c'. simpl. unfold fupd. rewrite <- NX in LT.
       destruct (c' =? c); [apply add1_bounded; [exact LT|apply A]|apply A].
   - simpl. apply (qb_frame st); try reflexivity; exact QB.
 Qed.
